@@ -188,6 +188,9 @@ func (ss *SpecSet) parseFile(pkg, path, data string) {
 				key = "ext:" + m[1]
 			} else if rc.kw == "iface" {
 				key = "iface:" + pkg + "." + m[1]
+				if m[1] == "error.Error" {
+					key = "iface:error.Error" // the predeclared error interface
+				}
 			} else if rc.kw == "functype" {
 				key = "functype:" + pkg + "." + m[1]
 			}
